@@ -26,6 +26,10 @@ CLAIMED = {
  "C19": ("exploration", "Engine H + Engine R", "seeded history simulation with filter_hypergraph as a mutating operation checked against a reference model (C19a); get_svh under a scheduled in-process worker pool with permuted execution order, compared with the binomial definition and mp=False (C19b)",
          "Partly claimed.  C19a: filter_hypergraph is one more operation in refinement histories of all four containers (criteria over the metadata in use, missing attributes, empty criteria, both modes, keep_edges) and the history continues afterwards.  C19b: see DESIGN 7/C19.",
          "The exact FDR constant is not asserted; keep_edges=True corner cases under the ambiguity guard."),
+
+ "C06": ("fault_enumeration", "Engine H + Engine F", "simulated raw file device under the real io stack (ENOSPC/EIO at every byte offset, failing open/close, short raw reads/writes, torn files, overwrite of a longer file), driven from seeded histories; acked-save-implies-equal-load, saved-object-untouched and post-load lock-step oracles",
+         "Histories drive objects of all four containers into states with removal history; d_roundtrip steps save and load through the simulated device in both formats (buffer sizes 1/7/64/8192, short raw reads/writes, overwrite of a longer file) and compare the full public observation (type, nodes incl. isolated, hyperedges with direction/time/layer, weightedness, weights, all metadata modulo the reserved keys); the loaded twin is then driven in lock step with its original.  d_faults steps enumerate, for the saved object, every write-fault byte offset for ENOSPC and EIO, a failing close, three failing opens, and every read-fault offset: a save that returns normally must load equal, the saved object must be unchanged even when the save fails, a load that returns under a read fault must equal the saved observation, and a retry on a healthy device must round-trip.  .hgr and HIF documents generated from a document model are read through the same device under every read-fault offset.",
+         "Fault offsets stride 1 up to 600 (quick) / 4096 (thorough) bytes, stride 7 beyond; loading a torn file is a probe, not a verdict; real disks are replaced by the simulated raw device (no privileges for dm-flakey)."),
 }
 NA = {
  "C08": "pure function of the hypergraph value (degrees, components): no history, I/O, random draw, clock or interleaving for a simulator to own (DESIGN.md 8)",
